@@ -2948,6 +2948,10 @@ func checkSwampName(zeusInterface zeus.Zeus, islandID uint64, inputSwampName str
 		// return with grpc error message
 		return nil, status.Error(codes.InvalidArgument, "SwampName cannot be empty")
 	}
+	// a swamp name always has the three-part form sanctuary/realm/swamp
+	if strings.Count(inputSwampName, "/") < 2 {
+		return nil, status.Error(codes.InvalidArgument, "SwampName must have the form sanctuary/realm/swamp")
+	}
 	swampName := name.Load(inputSwampName)
 
 	// check the existence of the swamp only if it is needed
